@@ -145,7 +145,9 @@ func (g *Gen) GenFunc(key string) (res *FnResult) {
 				}
 				// builders: only the builders listed as sb(...) may have a different content than at entry
 				sb := sbHeap(g)
-				if a, b := fr.entry.Heap(sb), r.st.Heap(sb); a != b {
+				// (a function whose inferred write set has no builder heap writes only builders that are its own plain
+				// locals: nothing to show)
+				if a, b := fr.entry.Heap(sb), r.st.Heap(sb); a != b && g.WriteSetOf(fn).Names[sb] {
 					oe := env.clone()
 					oe.Cur = fr.entry
 					var keys []string
